@@ -17,8 +17,9 @@ def run(chk):
         pr = proof_stage(chk, MODULE, THEOREMS)
     pair = Pair(chk.log)
     zs = filelevel.load_zoos(pair, workloads.ZOOS)
-    raw, meta = workloads.file_cases(chk, zs, thorough)
+    raw, meta = workloads.file_cases(chk, zs, thorough, large=True)
     cases = [filelevel.Case(z, mx, codec, ops, tag) for z, mx, codec, ops, tag in raw]
+    cases.sort(key=lambda c: -len(c.go_ops))      # big cases first so that they spread over the workers
     filelevel.run_cases(pair, cases, want_parse=False)
 
     tie_breaks, prop_fail, tags = [], [], {}
